@@ -12,6 +12,7 @@ two user groups with dyadic compositions):
                 another phase set shares the package
   c10.history4  the same alphabet on one package (3 chemicals), depth 2 (quick) / 4 (thorough)
   c10.wide      ~42 actions (superset alphabet), depth 2 (quick) / 3 (thorough)
+  c10.struct    phase-set growth, case-twin phase sets, copies and by_mass views (depth 3/4), see C10Struct
   c10.evict     depth 2/3 over floods of 101 / 501 / 2000 distinct valid keys followed by probe gets / sets
 
 Reference model: a dense NumPy image of the data plus my own name table (name -> position, group -> positions +
@@ -984,10 +985,214 @@ class C10(System):
         return repr((a, i.get('wrote_cas')))
 
 
+class C10Struct(System):
+    """Histories in which the STRUCTURE around the look-up caches changes: an indexer's phase set grows (mix_from / copy_like adds a phase
+    that sorts before the existing ones), a second indexer stays on the old phase set, indexers over phase sets that differ only by letter
+    case are created in one execution (module-level PhaseIndexer cache), indexers are copied after their by_mass() view was taken and keys are
+    used through the mass views (positional access x MW).  Every indexer's data are compared with their dense images after every step."""
+    nontrivial_per_config = True
+    KEYCHEM = 0
+
+    def __init__(self, name='c10.struct', depth_q=3, depth_t=4, tcap_q=40, tcap_t=300):
+        self.name = name; self._dq, self._dt, self._tq, self._tt = depth_q, depth_t, tcap_q, tcap_t
+    def warm(self): _chems(); fixtures.tmo()
+    def depth(self, tier): return self._dq if tier == 'quick' else self._dt
+    def time_cap(self, tier): return self._tq if tier == 'quick' else self._tt
+    def reset_globals(self):
+        fixtures.reset_globals()
+        import thermosteam._phase as _ph
+        _ph.PhaseIndexer._index_cache.clear()            # module-level phase-set -> row map cache: owned per execution, in canon
+    def configs(self, tier, seed):
+        cfgs = [(3, ('l', 's'))]
+        if tier != 'quick': cfgs.append((4, ('L', 's')))
+        return cfgs
+
+    # -- models
+    def _model(self, st, phases, mass=False):
+        n = st.n
+        m = Model(C10._order(n), phases, mass=mass)
+        for p in range(n): m.add_alias(p, 'a_' + m.IDs[p])
+        g = C10._groups(n)['G1']
+        m.add_group('G1', *g)
+        return m
+
+    def _add(self, st, name, phases, salt, ix=None):
+        t = fixtures.tmo()
+        m = self._model(st, phases)
+        if ix is None:
+            ix = t.indexer.MolarFlowIndexer.blank(m.phases, st.cs)
+            for i in range(st.n):
+                for r in range(len(m.phases)):
+                    w = VALS[(i + 3 * r + salt) % len(VALS)]
+                    m.D[r, i] = w
+                    if w: ix.data.rows[r].dct[i] = w
+        st.ix[name] = ix; st.m[name] = m
+
+    def build(self, config):
+        n, phases = config
+        st = St(); st.config = config; st.n = n; st.info = {}
+        order = C10._order(n)
+        g1 = C10._groups(n)['G1']
+        st.broken = None
+        try:
+            st.cs = make_package(order, [['a_' + _chems()[i].ID] for i in order], {'G1': g1})
+        except Exception as e:
+            st.broken = Violation('unexpected-exception', f'building the package raised {type(e).__name__}: {e}', match=dict(op='build', exc=type(e).__name__)); return st
+        st.ix = {}; st.m = {}; st.viewed = set()
+        self._add(st, 'ma', phases, 1)
+        self._add(st, 'mb', phases, 4)
+        return st
+
+    # -- actions
+    def _keys(self, st, name):
+        m = st.m[name]
+        ID = s(m.IDs[self.KEYCHEM])
+        ks = [T(s(p), ID) for p in m.phases]
+        ks.append(T(s(m.phases[-1]), s('G1')))
+        ks.append(s(m.phases[0]))
+        if name in ('gl', 'Lg'):
+            ks += [T(s(q), ID) for q in ('l', 'L') if q not in m.phases]          # other-case fallback
+        return ks
+
+    def actions(self, st):
+        a = []
+        for name in st.ix:
+            for k in self._keys(st, name): a.append(('get', name, k))
+        for name in ('ma', 'mk'):
+            if name in st.ix:
+                m = st.m[name]
+                a.append(('set', name, T(s(m.phases[-1]), s(m.IDs[self.KEYCHEM])), ('sc', 2.5)))
+                a.append(('getm', name, T(s(m.phases[-1]), s(m.IDs[self.KEYCHEM]))))
+                a.append(('getm', name, T(s(m.phases[0]), s('G1'))))
+                a.append(('setm', name, T(s(m.phases[-1]), s(m.IDs[self.KEYCHEM])), ('sc', 4.0)))
+                if name not in st.viewed: a.append(('view', name))
+        if 'g' not in st.m['ma'].phases:
+            a.append(('grow', 'ma', 'mix')); a.append(('grow', 'ma', 'copy'))
+        if 'gl' not in st.ix: a.append(('new', 'gl'))
+        if 'Lg' not in st.ix: a.append(('new', 'Lg'))
+        if 'mk' not in st.ix: a.append(('copy', 'ma'))
+        return a
+
+    # -- one step
+    def step(self, st, a):
+        op = a[0]
+        st.info = dict(op=op)
+        t = fixtures.tmo()
+        try:
+            if op in ('get', 'set'): out = self._access(st, a, mass=False)
+            elif op in ('getm', 'setm'): out = self._access(st, a, mass=True)
+            elif op == 'view':
+                st.ix[a[1]].by_mass(); st.viewed.add(a[1]); out = ('view',)
+            elif op == 'copy':
+                m0 = st.m['ma']
+                ix = st.ix['ma'].copy()
+                self._add(st, 'mk', m0.phases, 0, ix=ix)
+                st.m['mk'].D[:] = m0.D
+                out = ('copy',)
+            elif op == 'new':
+                self._add(st, a[1], ('g', 'l') if a[1] == 'gl' else ('L', 'g'), 2 if a[1] == 'gl' else 5)
+                out = ('new', a[1])
+            elif op == 'grow':
+                ix = st.ix['ma']; m = st.m['ma']
+                gci = t.indexer.ChemicalMolarFlowIndexer.blank('g', st.cs)
+                gv = [0.5, 0.0, 2.0, 0.25][:st.n]
+                for i, x in enumerate(gv):
+                    if x: gci.data.dct[i] = x
+                if a[2] == 'mix': ix.mix_from([ix, gci])
+                else: ix.copy_like(gci)
+                old = {q: (m.D[r].copy() if a[2] == 'mix' else np.zeros(st.n)) for r, q in enumerate(m.phases)}
+                old['g'] = np.array(gv, float)
+                m.phases = tuple(sorted(old))                 # the row of the new phase goes where the label sorts
+                m.D = np.array([old[q] for q in m.phases])
+                st.viewed.discard('ma')
+                out = ('grow', a[2])
+            else: raise ValueError(a)
+        except (Violation, Rejected): raise
+        except Exception as e:
+            import traceback as _tb
+            fr = [f for f in _tb.extract_tb(e.__traceback__) if 'thermosteam' in f.filename]
+            if not fr: raise
+            raise Violation('unexpected-exception', f'{a!r} raised {type(e).__name__}: {e}', match=dict(op=op, exc=type(e).__name__, where=fr[-1].name))
+        self._check_all(st, a)
+        return out
+
+    def _access(self, st, a, mass):
+        op, name, k = a[0], a[1], a[2]
+        v = a[3] if len(a) > 3 else None
+        m = st.m[name]; ix = st.ix[name]
+        key = dec(k)
+        res = m.resolve('mi', k)
+        match = dict(op=op, target=name, form=res[0], grown=('g' in st.m['ma'].phases and len(st.m['ma'].phases) > 2), phases=''.join(m.phases))
+        st.info['hit'] = C10._hashable(key) in ix._index_cache
+        if mass:
+            ix = ix.by_mass(); st.viewed.add(name)
+            mm = self._model(st, m.phases, mass=True)
+            MW = np.array(mm.MW)
+        if res[0] == 'undefined':
+            raise Violation('harness', f'key {key!r} undefined for {name}', match=match)
+        _, rows, sel = res
+        if op in ('get', 'getm'):
+            got = ix[key]
+            if mass: exp = C10._expected_get(mm, m.D * MW, rows, sel)
+            else: exp = C10._expected_get(m, m.D, rows, sel)
+            st.info['touched'] = bool(np.any(np.asarray(exp)))
+            if not same(got, exp):
+                raise Violation('get-value', f'{"mass view of " if mass else ""}{name}{list(m.phases)}[{key!r}] returned {arr(got).tolist()!r}, the data hold '
+                                f'{np.asarray(exp).tolist()!r} at those positions{" (x MW)" if mass else ""}', match=match)
+            return (op, res[0])
+        val = C10._value(v)
+        ix[key] = val
+        if mass:
+            W = m.D * MW
+            C10._model_set(mm, W, rows, sel, val)
+            m.D[:] = W / MW
+        else:
+            C10._model_set(m, m.D, rows, sel, val)
+        return (op, res[0])
+
+    def _check_all(self, st, a):
+        for name, ix in st.ix.items():
+            m = st.m[name]
+            if tuple(ix._phases) != tuple(m.phases):
+                raise Violation('phase-set', f'after {a!r}: indexer {name} has phases {ix._phases!r}, expected {m.phases!r}', match=dict(op=a[0], target=name))
+            d = arr(ix.data)
+            if not same_data(d, m.D):
+                raise Violation('set-entries' if a[0] in ('set', 'setm') else 'data-changed', f'after {a!r}: data of {name}{list(m.phases)} are {d.tolist()!r}, expected {m.D.tolist()!r}',
+                                match=dict(op=a[0], target=a[1] if len(a) > 1 and isinstance(a[1], str) else None, data=name))
+
+    def invariants(self, st):
+        if st.broken is not None: return [st.broken]
+        out = []
+        for name, ix in st.ix.items():
+            for r in ix.data.rows:
+                for i, x in r.dct.items():
+                    if not x or not (0 <= i < st.n): out.append(Violation('stored-zero', f'{name} stores entry {i}: {x!r}', match=dict(data=name)))
+        return out
+
+    def canon(self, st):
+        if st.broken is not None: return ('broken', st.config)
+        import thermosteam._phase as _ph
+        ids = {}
+        def alias(o): return ids.setdefault(id(o), len(ids))
+        per = []
+        for name in sorted(st.ix):
+            ix = st.ix[name]
+            per.append((name, tuple(ix._phases), fixtures.sparse_digest(ix.data), alias(ix._index_cache),
+                        tuple((repr(k), repr(v)) for k, v in ix._index_cache.items()), alias(ix._data_cache), tuple(sorted(map(repr, ix._data_cache)))))
+        return (st.config, tuple(per), tuple((repr(k), repr(v)) for k, v in st.cs._index_cache.items()),
+                tuple(sorted(repr(sorted(k)) if isinstance(k, frozenset) else repr(k) for k in _ph.PhaseIndexer._index_cache)), C10._comp_digest(st.cs))
+
+    def nontrivial(self, st, a, obs):
+        return bool(st.info.get('hit')) or a[0] in ('grow', 'copy', 'new', 'setm', 'set')
+    def outcome(self, st, a, obs):
+        return repr((a[0], a[1], obs, st.info.get('hit'), tuple(sorted((n, tuple(m.phases)) for n, m in st.m.items()))))[:300]
+
+
 SYSTEMS = [
     C10('c10.keys', 'keys', 1, 1),
     C10('c10.history', 'history', 3, 3, tcap_q=60, tcap_t=120),
     C10('c10.history4', 'history', 2, 4, tcap_q=20, tcap_t=520, one_config=True),
     C10('c10.wide', 'wide', 2, 3, tcap_q=30, tcap_t=300),
     C10('c10.evict', 'evict', 2, 3, tcap_q=40, tcap_t=260),
+    C10Struct(),
 ]
